@@ -1,5 +1,5 @@
 From Coq Require Import ZArith List Bool.
-From QV Require Import Sx Strs Fl Cell Machine Cpu MachineEntry Verifier Monitor.
+From QV Require Import Sx Strs Fl Cell Machine Cpu MachineEntry Verifier VerifierCfg CertObs Monitor.
 Import ListNotations.
 Open Scope Z_scope.
 
@@ -31,6 +31,15 @@ Definition monitor_entry (x : sx) : sx :=
       SL [sx_bool ok; SL (map SZ bad); sx_stop k; SZ n; SL (map sx_viol (rev (viol mn)));
           sx_bool (trapped_before mn); sx_st s]
     | _, _, _ => sx_bad
+    end
+  (* (2 module script fuel) -> (certificate_ok conflicts failing_addresses size stack_instructions_seen) *)
+  | SL [SZ 2; m; sc; SZ fuel] =>
+    match module_sx m, script_sx sc with
+    | Some m', Some sc' =>
+      let o := obs_run m' (Z.to_nat fuel) (init_state m' sc') (mkObs [] [] [] 0) in
+      SL [sx_bool (check_cert m' (o_cert o)); SL (map SZ (rev (o_conflicts o)));
+          SL (map SZ (cert_failing m' (o_cert o))); SZ (Z.of_nat (length (o_cert o))); SZ (o_seen o)]
+    | _, _ => sx_bad
     end
   | _ => sx_bad
   end.
